@@ -17,6 +17,9 @@ use std::rc::Rc;
 pub trait DynSource {
     fn pull(&mut self) -> Option<Q>;
     fn clone_box(&self) -> Box<dyn DynSource>;
+    fn as_any(&self) -> &dyn std::any::Any;
+    /// `self.clone_from(o)` on the concrete source type (false: the two are of different types)
+    fn clone_from_dyn(&mut self, o: &dyn DynSource) -> bool;
 }
 impl<S> DynSource for S
 where
@@ -27,6 +30,18 @@ where
     }
     fn clone_box(&self) -> Box<dyn DynSource> {
         Box::new(self.clone())
+    }
+    fn as_any(&self) -> &dyn std::any::Any {
+        self
+    }
+    fn clone_from_dyn(&mut self, o: &dyn DynSource) -> bool {
+        match o.as_any().downcast_ref::<S>() {
+            Some(s) => {
+                Clone::clone_from(self, s);
+                true
+            }
+            None => false,
+        }
     }
 }
 pub struct BoxSrc(pub Box<dyn DynSource>);
@@ -621,9 +636,19 @@ pub fn parse_own_stage(l: &str) -> OwnStage {
     }
 }
 
-/// a stateful, clonable stage for the statically typed pipes that are copied (`clone`, `clone_from`)
-#[derive(Clone)]
+thread_local! {
+    /// how many times a stage of a clonable pipe has been cloned through ITS OWN `Clone` impl
+    static STAGE_CLONES: Cell<u64> = Cell::new(0);
+}
+/// a stateful, clonable stage for the statically typed pipes that are copied (`clone`, `clone_from`). Its `Clone` is
+/// hand-written (it counts): a copy of a pipe is made of copies of its stages made by the stages' own `Clone`
 pub struct OStage(pub OwnStage);
+impl Clone for OStage {
+    fn clone(&self) -> Self {
+        STAGE_CLONES.with(|c| c.set(c.get() + 1));
+        OStage(self.0.clone())
+    }
+}
 impl Filter<Q> for OStage {
     type Output = Q;
     fn filter(&mut self, x: Q) -> Q {
@@ -1092,6 +1117,25 @@ impl Other {
                 self.srcs.insert(id(toks[2]), copy);
                 Some("ok".into())
             }
+            "sclonefrom" => {
+                // `a.clone_from(&b)` on the concrete source types (both built from the same expression)
+                let src = match self.srcs.get(&id(toks[2])).expect("harness: unknown source id") {
+                    SrcTop::Plain(b) => SrcTop::Plain(b.clone()),
+                    SrcTop::Peek(p) => SrcTop::Peek(p.clone()),
+                    SrcTop::Cache(c) => SrcTop::Cache(c.clone()),
+                };
+                let dst = self.srcs.get_mut(&id(toks[1])).expect("harness: unknown source id");
+                match (dst, &src) {
+                    (SrcTop::Plain(a), SrcTop::Plain(b)) => {
+                        let ok = a.0.clone_from_dyn(&*b.0);
+                        assert!(ok, "harness: sclonefrom between sources of different types");
+                    }
+                    (SrcTop::Peek(a), SrcTop::Peek(b)) => a.clone_from(b),
+                    (SrcTop::Cache(a), SrcTop::Cache(b)) => a.clone_from(b),
+                    _ => panic!("harness: sclonefrom between sources of different kinds"),
+                }
+                Some("ok".into())
+            }
             "pull" => {
                 let s = self.srcs.get_mut(&id(toks[1])).expect("harness: unknown source id");
                 Some(match s {
@@ -1118,6 +1162,9 @@ impl Other {
                 Some(self.sinks.get_mut(&id(toks[1])).expect("harness: unknown sink id").ff(x))
             }
             "fin" => Some(self.sinks[&id(toks[1])].fin()),
+            // `kagree a b <clause>`: what the combined statistics sink `a` and the mean-variance sink `b` finalise to, side
+            // by side (both have received the same samples)
+            "kagree" => Some(format!("{} | {}", self.sinks[&id(toks[1])].fin(), self.sinks[&id(toks[2])].fin())),
             // copies of a sink: `kclone a b` (b = a.clone()), `kclonefrom a b` (a.clone_from(&b))
             "kclone" => {
                 let c = self.sinks[&id(toks[1])].clone_box();
@@ -1142,11 +1189,14 @@ impl Other {
             // copies of statically typed pipes: `pclone a b` (b = a.clone()), `pclonefrom a b` (a.clone_from(&b))
             "pclone" | "pclonefrom" => {
                 let (a, b) = (id(toks[1]), id(toks[2]));
+                let before = STAGE_CLONES.with(|c| c.get());
+                let mut counted = 0;
                 if toks[0] == "pclone" {
                     let copy = match &self.pipes[&a].top {
                         PipeTop::C(c) => c.clone(),
                         _ => panic!("harness: pclone of a pipe that is not clonable"),
                     };
+                    counted = STAGE_CLONES.with(|c| c.get()) - before;
                     let line = self.pipes[&a].line.clone();
                     self.pipes.insert(
                         b,
@@ -1157,12 +1207,15 @@ impl Other {
                         PipeTop::C(c) => c.clone(),
                         _ => panic!("harness: pclonefrom a pipe that is not clonable"),
                     };
+                    let before2 = STAGE_CLONES.with(|c| c.get());
                     match &mut self.pipes.get_mut(&a).expect("harness: unknown pipe id").top {
                         PipeTop::C(c) => c.clone_from_pipe(&src),
                         _ => panic!("harness: pclonefrom into a pipe that is not clonable"),
                     }
+                    counted = STAGE_CLONES.with(|c| c.get()) - before2;
                 }
-                Some("ok".into())
+                let _ = before;
+                Some(format!("clones={}", counted))
             }
             "ppull" => match &mut self.pipes.get_mut(&id(toks[1])).expect("harness: unknown pipe id").top {
                 PipeTop::S(d) => Some(d.source().r()),
